@@ -30,7 +30,7 @@ func init() {
 	evidenceInfo["C01"] = evInfo{
 		rule: "one evaluation = one project built once through kit.NewJapi (root from disk) or kit.NewJApiFromFile (root in memory, INCLUDEs from disk) on the sim-disk under a seeded fault plan. " + faults +
 			"Projects: generator (valid), light include graphs (ordinary, hostile parameters, static cycles), 29 special configurations (missing/empty/directory root, macro cycles, malformed INCLUDEs, NUL/invalid UTF-8, truncated directives, ...), corpus. " +
-			"Phase 'depth' builds 12 documents with one construct nested or chained 100 000 levels deep (arrays, objects, macro chain, parentheses, regex groups, enum, annotation, or-rule, include chain of 2 000 files ...) under a 64 MB stack limit. Phase 'scaling' first builds 20 project shapes (tags, methods, bodies, type chains and stars, allOf chains, includes, pastes, macro chains, responses, JSON-RPC, macro and include doubling ...) at size n and 4n and requires <= 8x the seam operations (deterministic work measure; linear = 4x). " +
+			"Phase 'depth' builds 12 documents with one construct nested or chained 100 000 levels deep (arrays, objects, macro chain, parentheses, regex groups, enum, annotation, or-rule, include chain of 2 000 files ...) under a 64 MB stack limit. Phase 'scaling' first builds 35 project shapes (tags, methods, bodies, type chains and stars, allOf chains, includes, pastes, macro chains, responses, JSON-RPC, macro and include doubling, path parameters, enum values, or-types ...) at size n and 4n, measuring seam operations and bytes allocated, and requires <= 8x the seam operations (deterministic work measure; linear = 4x). " +
 			"Phase 'truncate' builds a document that uses every lexical construct cut at every byte offset x 3 line-ending conventions x 4 trailing bytes. " +
 			"Oracle: outcome is a catalog or a structured error value; no panic; the worker process survives; <= 5000 file accesses; no hang; no deadlock among goroutines the build starts itself; work (seam operations executed) <= 150 per byte served once above 400 000. " +
 			"non-trivial = at least one fault fired or the project is a hostile/special configuration; distinct = distinct (configuration kind, fired-fault multiset, access-log shape, outcome class) tuples",
@@ -82,10 +82,11 @@ func (e diskEngine) Plan(tier string) []Phase {
 		// "truncate": a document that uses every lexical construct, cut at every byte offset, in three
 		// line-ending conventions, optionally followed by one extra byte (~20 000 builds, a few seconds)
 		if tier == "thorough" {
-			return []Phase{{Mode: "scaling", Count: len(scaleShapes)}, {Mode: "depth", Count: len(depthShapes)}, {Mode: "truncate", Count: truncateCount()}, {Mode: "random", Share: 0.7}, {Mode: "sweep", Share: 0.3}}
+			return []Phase{{Mode: "scaling", Count: len(scaleShapes)}, {Mode: "depth", Count: len(depthShapes)}, {Mode: "paths", Count: pathEnumCount(3)}, {Mode: "truncate", Count: truncateCount()}, {Mode: "random", Share: 0.7}, {Mode: "sweep", Share: 0.3}}
 		}
+		// "paths": every URL path of 1-2 (thorough: 1-3) segments over an alphabet of 21 unusual segments, in six settings
 		// "depth": one construct nested 100 000 levels deep per job (recursion that follows the input)
-		return []Phase{{Mode: "scaling", Count: len(scaleShapes)}, {Mode: "depth", Count: len(depthShapes)}, {Mode: "truncate", Count: truncateCount()}, {Mode: "random", Share: 0.85}, {Mode: "sweep", Share: 0.15}}
+		return []Phase{{Mode: "scaling", Count: len(scaleShapes)}, {Mode: "depth", Count: len(depthShapes)}, {Mode: "paths", Count: pathEnumCount(2)}, {Mode: "truncate", Count: truncateCount()}, {Mode: "random", Share: 0.85}, {Mode: "sweep", Share: 0.15}}
 	}
 	return []Phase{{Mode: "random", Share: 1}}
 }
@@ -282,6 +283,11 @@ func (e diskEngine) Gen(job *Job) *Case {
 	if job.Mode == "truncate" {
 		c.Project = genTruncated(job.Index)
 		c.Note = "truncate"
+		return c
+	}
+	if job.Mode == "paths" {
+		c.Project = genPathEnum(job.Index)
+		c.Note = "paths"
 		return c
 	}
 	if job.Mode == "depth" {
@@ -489,19 +495,22 @@ func (e diskEngine) execScaling(c *Case, job *Job) *Result {
 	shape := strings.TrimPrefix(c.Note, "scaling:")
 	canonicalEnv()
 	simrt.SetOSHook(nil)
-	var ops [2]uint64
+	var ops, alloc [2]uint64
 	var class [2]string
 	sizes := scaleSizes(shape)
 	for i, n := range sizes {
 		p := scaleProject(shape, n)
 		must(Materialise(p.Files))
 		simrt.ResetOps()
+		a0 := totalAlloc()
 		o := BuildPath(filepath.Join(projDir, p.Root))
+		alloc[i] = totalAlloc() - a0
 		ops[i] = simrt.Ops()
 		class[i] = o.Class()
 	}
 	res.count("scaling-shapes", 1)
 	res.count("max:scaling-ratio-x10", int(ops[1]*10/(ops[0]+1)))
+	res.count("max:scaling-alloc-ratio-x10", int(alloc[1]*10/(alloc[0]+1)))
 	res.NonTrivial = true
 	res.Key = "scaling|" + shape
 	res.Steps = int(ops[0] + ops[1])
@@ -527,7 +536,15 @@ func (e diskEngine) execScaling(c *Case, job *Job) *Result {
 				fmt.Sprintf("shape %q: %d seam operations at n=%d, %d at n=%d: 4x the input needs %.1fx the work (linear = 4x, quadratic = 16x); the build does not run in time proportional to the input", shape, ops[0], sizes[0], ops[1], sizes[1], float64(ops[1])/float64(ops[0])))
 		}
 	}
-	res.Detail, _ = json.Marshal(map[string]any{"shape": shape, "ops_n50": ops[0], "ops_n200": ops[1]})
+	// second measure: bytes allocated. Work done inside the standard library (joining, splitting
+	// and copying ever longer prefixes) passes no seam, but it allocates. Same bound: 4x the input,
+	// at most 8x the bytes; only looked at when the smaller build allocates enough (>= 256 KB) for
+	// the fixed cost of a build not to matter, and only if the first measure was quiet.
+	if res.Verdict != "violation" && e.prop == "C01" && alloc[0] >= 256<<10 && alloc[1] > 8*alloc[0] {
+		res.violate("work-not-proportional", "work-not-proportional: "+shape+" (allocation)",
+			fmt.Sprintf("shape %q: %d KB allocated at n=%d, %d KB at n=%d: 4x the input allocates %.1fx the bytes (linear = 4x, quadratic = 16x) while the seam operations grow %.1fx; the build does not run in time proportional to the input", shape, alloc[0]>>10, sizes[0], alloc[1]>>10, sizes[1], float64(alloc[1])/float64(alloc[0]), float64(ops[1])/float64(ops[0]+1)))
+	}
+	res.Detail, _ = json.Marshal(map[string]any{"shape": shape, "ops_n": ops[0], "ops_4n": ops[1], "alloc_n": alloc[0], "alloc_4n": alloc[1]})
 	return res
 }
 
@@ -1023,9 +1040,12 @@ func oracleC07(c *Case, o *Outcome, log []Access, mr *modelResult, treeAsserted 
 		}
 		res.count("c07:line-column-checked", 1)
 	} else {
-		if !((e.Line == wantLine && e.Column == wantCol) || (e.Line == 0 && e.Column == 0)) {
-			return "wrong-line-column", "wrong-line-column", fmt.Sprintf("error at end of %q (index %d) reports line %d column %d; expected %d:%d or the 'unknown' 0:0", e.File, e.Index, e.Line, e.Column, wantLine, wantCol)
+		// the end of the content is a position too: the column after the last byte of the last line
+		// (or column 1 of the line a final line break opens); only empty content has no line at all
+		if !((e.Line == wantLine && e.Column == wantCol) || (len(data) == 0 && e.Line == 0 && e.Column == 0)) {
+			return "wrong-line-column", "wrong-line-column: end-of-file", fmt.Sprintf("error at end of %q (index %d = length) reports line %d column %d; that position is %d:%d", e.File, e.Index, e.Line, e.Column, wantLine, wantCol)
 		}
+		res.count("c07:line-column-checked(end-of-file)", 1)
 	}
 	if ok {
 		raw, _ := lineText(data, e.Index)
